@@ -50,6 +50,7 @@ structure Sound (c : RepCtx) (pto : Int) (o : SegObs) : Prop where
               ≤ ((o.mdatPos + o.mdatSize : Nat) : Int)
   enc : encErrs c o = []
   moov : c.hasMoov = true
+  trex : o.needsTrex = true → c.hasTrex = true
   pts : ptsLoop pto o.tfdt [] o.samples = []
   mediaTs : c.mediaTs = some c.dashTs
   dashTs : c.dashTs ≠ 0
@@ -73,9 +74,10 @@ theorem validateSegment_sound {c : RepCtx} (e : SegExp) {o : SegObs} {pto : Int}
     validateSegment c e o = seqErrs e o ++ decodeErrs e o ++ durErrs c e o := by
   subst hp
   have hd := h.dashTs
+  have ht := h.trex
   unfold validateSegment segTail ctypeErrs
   rw [parseData_sound h, h.enc, h.pts, h.mediaTs]
-  simp [h.status, h.ctype, h.moov, hd]
+  cases hn : o.needsTrex <;> simp_all [h.status, h.ctype, h.moov]
 
 /-- the same with the expectation spelled out field by field (the form `simp` meets) -/
 theorem validateSegment_sound_mk {c : RepCtx} {o : SegObs} (sq dt : Option Int) (du : Option Nat)
@@ -90,9 +92,10 @@ theorem segResult_sound {c : RepCtx} {pto : Int} {o : SegObs} (h : Sound c pto o
     segResult c o = { seq := some o.seq, duration := some (sumDurs o.samples),
                       nextDecode := some ((o.tfdt : Int) + (sumDurs o.samples : Int)) } := by
   have hd := h.dashTs
+  have ht := h.trex
   unfold segResult
   rw [parseData_sound h, obsDuration_sound h, h.mediaTs]
-  simp [h.status, h.moov, hd]
+  cases hn : o.needsTrex <;> simp_all [h.status, h.moov]
 
 /-! ### membership: a failing comparison is reported whenever the code reaches it -/
 
